@@ -5,9 +5,9 @@
    reachable table, and direct-peer routes disappear only through a removal naming them.
    TablePrefix.v: gossip routes per routing prefix stay within 3*(2*limit+1) in every reachable
    table (after fix D21; the function as it stood is refuted).
-   Still only validated (evaluated on every step of every real operation sequence): "within the
-   limit after a cleanup". *)
-From Verif Require Import Prelude SwitchLabel Table TableProofs TableSorted TableBounds TablePrefix.
+   TableClean.v: within the limit after a cleanup.  Every clause of the property is now a theorem
+   (for system-producible routes and configurations whose routing bits are at least the base bits). *)
+From Verif Require Import Prelude SwitchLabel Table TableProofs TableSorted TableBounds TablePrefix TableClean.
 
 (* 'added' means the route is now present ... *)
 Theorem C11_added_present : forall cfg now t e0 t',
@@ -149,3 +149,17 @@ Theorem C11_prefix_bound_pinned_refuted : exists cfg ops, cfg_ok cfg = true /\ F
     (3 * (2 * lim_of cfg (e_dst e) + 1) < cnt (in_gp (e_paddr e) (e_pbits e)) (fold_left (tstep_pinned cfg 1) ops []))%nat.
 Proof. exact prefix_bound_pinned_refuted. Qed.
 Print Assumptions C11_prefix_bound_pinned_refuted.
+
+(* ---------- within the limit after a cleanup (TableClean.v) ---------- *)
+Theorem C11_clean_within_limit : forall cfg self now t, cfg_ok cfg = true -> pinv cfg t ->
+  forall e, In e (clean cfg self now t) -> e_source e = src_gossip ->
+    (cnt (in_gp (e_paddr e) (e_pbits e)) (clean cfg self now t) <= lim_of cfg (e_dst e))%nat.
+Proof. exact clean_within_limit. Qed.
+Print Assumptions C11_clean_within_limit.
+
+Theorem C11_reachable_clean_within_limit : forall cfg self ops now, cfg_ok cfg = true -> Forall op_ok ops ->
+  let t := clean cfg self now (fold_left (tstep cfg self) ops []) in
+  forall e, In e t -> e_source e = src_gossip ->
+    (cnt (in_gp (e_paddr e) (e_pbits e)) t <= lim_of cfg (e_dst e))%nat.
+Proof. exact reachable_clean_within_limit. Qed.
+Print Assumptions C11_reachable_clean_within_limit.
